@@ -109,9 +109,17 @@ class Norm:
         if k == 'not': return ('not', N(t[1]))
         if k == 'eq':
             a, b = N(t[1]), N(t[2])
+            # x.len() == 0  is  x.is_empty()
+            if a == ('int', 0) and b[0] == 'len': return ('is_empty', b[1])
+            if b == ('int', 0) and a[0] == 'len': return ('is_empty', a[1])
             if repr(a) > repr(b): a, b = b, a
             return ('eq', a, b)
-        if k == 'lt': return ('lt', N(t[1]), N(t[2]))
+        if k == 'lt':
+            a, b = N(t[1]), N(t[2])
+            # 0 < x.len()  is  !x.is_empty();  x.len() < 1  is  x.is_empty()
+            if a == ('int', 0) and b[0] == 'len': return ('not', ('is_empty', b[1]))
+            if b == ('int', 1) and a[0] == 'len': return ('is_empty', a[1])
+            return ('lt', a, b)
         if k == 'ordcmp': return ('ordcmp', N(t[1]), N(t[2]))
         if k == 'discr': return ('discr', N(t[1]))
         if k == 'len': return ('len', N(t[1]))
@@ -269,7 +277,7 @@ class Norm:
             if r[0] == 'not': r = r[1]; neg = True
             if r[0] == 'eq' and b in r[1:] and neg == name.endswith('::all'):
                 other = r[2] if r[1] == b else r[1]
-                if 'bound' not in repr(other):
+                if repr(b) not in repr(other):      # may mention an enclosing closure's parameter, not its own
                     c = ('contains', a[0][1], other)
                     return ('not', c) if neg else c
         if name == 'core::slice::<impl [T]>::contains': return ('contains', a[0], a[1])
